@@ -55,3 +55,19 @@ Proof.
   - rewrite tie_ctor_secant. unfold lambert_fields. cbv zeta. apply tie_toLambert.
   - rewrite tie_ctor_tangent. unfold lambert_fields. cbv zeta. apply tie_toLambert.
 Qed.
+
+(* ... and the same for the inverse map toWGS84 (latitude loop included, every fuel) *)
+Lemma tie_constructed_toWGS84 fuel (el : ellipsoid (T:=R)) (v : vec2 (T:=R)) :
+  (forall sp : secant_params (T:=R),
+     let '(c, e, lon0, n, xs, ys) := src_ctor_secant ROps (secant_projection ROps) (tangent_projection ROps) sp el in
+     src_lambertToWGS84 ROps fuel c e lon0 n (v2x v) (v2y v) xs ys =
+     match toWGS84 ROps fuel (secant_projection ROps sp el) (el_e el) v with None => None | Some w => Some (w_lat w, w_lon w) end) /\
+  (forall tp : tangent_params (T:=R),
+     let '(c, e, lon0, n, xs, ys) := src_ctor_tangent ROps (secant_projection ROps) (tangent_projection ROps) tp el in
+     src_lambertToWGS84 ROps fuel c e lon0 n (v2x v) (v2y v) xs ys =
+     match toWGS84 ROps fuel (tangent_projection ROps tp el) (el_e el) v with None => None | Some w => Some (w_lat w, w_lon w) end).
+Proof.
+  split; intros p.
+  - rewrite tie_ctor_secant. unfold lambert_fields. cbv zeta. apply tie_lambertToWGS84.
+  - rewrite tie_ctor_tangent. unfold lambert_fields. cbv zeta. apply tie_lambertToWGS84.
+Qed.
